@@ -291,8 +291,8 @@ fn c10(ctx: &mut Ctx) {
 }
 
 // ------------------------------------------------------------------------------------------------
-// degree-bound labels through `open_combinations` / `check_combinations` (expectation only: the
-// linear-combination entry points are not part of this scheme model): honest single-term LCs are
+// degree-bound labels through `open_combinations` / `check_combinations` (expectation only here; the
+// model-backed run of the linear-combination entry points is `c06` below): honest single-term LCs are
 // accepted; the same transcript with the commitment presented under a bound the keys were not trimmed
 // for, or an unbounded commitment presented under an enforced bound, must not be
 // ------------------------------------------------------------------------------------------------
